@@ -33,6 +33,19 @@ func drawString(ch chooser.Chooser, maxLen int) string {
 		}
 		return string(append(b, post...))
 	}
+	if ch.Draw(8, "smed?") == 7 {
+		// Medium: lengths around the thresholds of small fixed buffers (16, 32,
+		// 64 bytes), and runs of adjacent single quotes.
+		n := 9 + ch.Draw(72, "smedlen")
+		if ch.Draw(3, "squotes") == 2 {
+			b := []byte(drawShortString(ch, 3))
+			for i := 2 + ch.Draw(30, "nquotes"); i > 0; i-- {
+				b = append(b, '\'')
+			}
+			return string(append(b, drawShortString(ch, 3)...))
+		}
+		return drawShortString(ch, n)
+	}
 	return drawShortString(ch, maxLen)
 }
 
@@ -136,8 +149,17 @@ func runC15(ch chooser.Chooser, st *Stats) *Outcome {
 			op := &c15Op{Join: ch.Draw(2, "join") == 1}
 			if op.Join {
 				k := ch.Draw(5, "nstr")
+				long := ch.Draw(64, "longlist") == 63
+				if long {
+					// A long list: more elements than a machine word has bits.
+					k = 60 + ch.Draw(80, "nstrlong")
+				}
 				for j := 0; j < k; j++ {
-					op.In = append(op.In, drawString(ch, 8))
+					if long {
+						op.In = append(op.In, drawShortString(ch, 3))
+					} else {
+						op.In = append(op.In, drawString(ch, 8))
+					}
 				}
 			} else {
 				op.In = []string{drawString(ch, 8)}
